@@ -20,6 +20,7 @@ RULE = ("(a) tie-point stream: files of all four formats whose earth-location wo
         "interpolation on: full-width coordinates vs the same orbit at the individual pixel positions (KLM: 0.005 deg "
         "between the first and last tie point, 0.03 deg in the extrapolated edge columns; POD words are quantised to 1/128 "
         "deg, so POD files get a coarse 0.06 / 0.08 deg limit and their measured deviation is reported). A case = one file; distinct by (format, words hash)")
+RULE += (" In the thorough tier, and in the quick tier whenever the source differs from the validated baseline, a LONG-PASS stream is added (passes of 1300 .. 12000 lines, just beyond multiples of 256 .. 8192, with the property-relevant event placed at and after such multiples; DESIGN 10.4 round 13).")
 TRUSTED_EXTRA = ["the accuracy of the tie-point spline (python-geotiepoints) on a real orbit is numerical support, not a theorem",
                  "pyorbital provides the orbit truth for the pixel-position clause"]
 
